@@ -432,11 +432,70 @@ def text_form_and_flags_stream(ctx, res):
             if not okk:
                 res.violate("C09:route:plaintext-held", "entries taken over from another typed dict of the same configuration are not hashed", case)
 
+def empty_secret_routes_stream(ctx, res):
+    """the EMPTY secret is a secret like any other: given by constructor keyword (schema and config type), by a command-line
+    override (`--password ""`, dotted destination), by attribute, item and document, next to a declared default — what is held is
+    a salted hash of `""` (not of the default, not of the previous secret): `challenge("")` passes, the default and the previous
+    secret fail, also after save and load"""
+    import argparse
+    import cincoconfig as cc
+    for alg in ("md5", "sha256"):
+        s = cc.Schema()
+        s.auth.password = cc.ChallengeField(alg, default="factory default")
+        s.auth.user = cc.StringField(default="u")
+        s.password = cc.ChallengeField(alg, default="factory default")
+        T = cc.make_type(s, "C09Empty%s" % alg)
+        for secret in ("", "0", " "):
+            for typed in (False, True):
+                for route in ("constructor", "cmdline", "attribute", "item", "load_tree"):
+                    S = T if typed else s
+                    case = {"stream": "empty-secret-routes", "alg": alg, "secret": repr(secret), "config_type": typed, "route": route}
+                    res.case(stable(case), kind="empty-secret-routes")
+                    try:
+                        if route == "constructor":
+                            cfg = S(password=secret, auth={"password": secret})
+                        else:
+                            cfg = S()
+                            cfg.password = "old secret"
+                            cfg.auth.password = "old secret"
+                            if route == "cmdline":
+                                cc.cmdline_args_override(cfg, argparse.Namespace(**{"password": secret, "auth.password": secret}))
+                            elif route == "attribute":
+                                cfg.password = secret
+                                cfg.auth.password = secret
+                            elif route == "item":
+                                cfg["password"] = secret
+                                cfg["auth.password"] = secret
+                            else:
+                                cfg.load_tree({"password": secret, "auth": {"password": secret}})
+                        back = S()
+                        back.loads(cfg.dumps(format="json"), format="json")
+                    except Exception as e:  # noqa
+                        res.violate("C09:route:empty-secret", "giving an empty / falsy secret raised %s" % type(e).__name__, dict(case, error=str(e)[:80]))
+                        continue
+                    bad = []
+                    for label, held in (("password", cfg.password), ("auth.password", cfg.auth.password), ("reloaded password", back.password), ("reloaded auth.password", back.auth.password)):
+                        def passes(text):
+                            try:
+                                held.challenge(text)
+                                return True
+                            except Exception:  # noqa
+                                return False
+                        if not passes(secret):
+                            bad.append([label, "the secret given does not verify"])
+                        for other in ("factory default", "old secret"):
+                            if other != secret and passes(other):
+                                bad.append([label, "%r verifies" % other])
+                    if bad:
+                        res.violate("C09:route:empty-secret", "an empty / falsy secret given to a challenge field was not stored: the default or the previous secret still verifies",
+                                    dict(case, problems=bad[:3]))
+
 def run(ctx):
     from cincoconfig import Schema, ChallengeField
     from cincoconfig.fields import DigestValue
     import os as _os
     res = Result()
+    guard(res, "C09", empty_secret_routes_stream, ctx, res)
     guard(res, "C09", text_form_and_flags_stream, ctx, res)
     guard(res, "C09", nested_and_reset_stream, ctx, res)
     guard(res, "C09", routes_stream, ctx, res)
